@@ -76,3 +76,23 @@ Example C07_rebind_after_expiry :
       [Success c MChannelBind 2 []]; [Error c MChannelBind 3 400 false]; [Error c MChannelBind 4 400 false];
       []; [Error c MChannelBind 5 400 false]; []; [Success c MChannelBind 6 []]; [Success c MChannelBind 7 []] ].
 Proof. vm_compute. reflexivity. Qed.
+
+(* ---------- history level: refinement of the timeout specification ---------- *)
+From Turn Require Import Common RelayCheck RelayProps RelayTrace RelayTime RelayTime7 RelayTrace2.
+(* The specification evaluated on the implementation's observed traces (chk_C07) holds on EVERY trace of the model:
+   reconstructed from the success responses alone - a successful CreatePermission restarts the full permission timeout of
+   every peer it names, a successful ChannelBind restarts the full channel timeout of that binding and the permission
+   timeout of its peer, the end of an allocation ends everything it owned - the permissions and channel bindings whose
+   timeout has not elapsed are, after every step and at every instant, exactly the ones that exist. *)
+Theorem C07_timeout_specification_refined : forall cfg, cfg_positive cfg -> cfg_seconds cfg ->
+  forall ep h, chk_C07 (model_case cfg ep h) = true.
+Proof. exact chk_C07_on_model. Qed.
+Print Assumptions C07_timeout_specification_refined.
+
+(* the reconstructed permission table agrees key by key with the model's, across any step *)
+Theorem C07_reconstructed_permission_table : forall cfg, cfg_positive cfg -> cfg_seconds cfg ->
+  forall s e s' acts pe ce, inv cfg s -> dl_inv s -> pagree pe s -> step cfg s e = (s', acts) ->
+  pagree (filter (fun x => existsb (fun a => addr_eqb (oa_client a) (fst (fst x))) (listing_of s'))
+            (fst (c07_update cfg (now s') {| os_ev := e; os_acts := acts; os_allocs := listing_of s' |} pe ce))) s'.
+Proof. exact perm_step. Qed.
+Print Assumptions C07_reconstructed_permission_table.
